@@ -181,7 +181,51 @@ SchemaUniverse ==
                                         {KV("x", Sig("x", ScRec, None)), KV("h", Sig("h", ScRef, None))}, Some(Dn)))}),
                  TSchema({})}
     IN one \cup two
-Universe == ScopeUniverse \cup SchemaUniverse
+\* schemas taken through the life cycle in the quick tier (thorough: all): a property of the root object, a
+\* property of a referenced object, every data scope of a plugin schema
+LifeBases == {ScPlain, Scope1(P("p", RefB), BFor(RefB), "map", FALSE), ScOne,
+              TSchema({KV("s1", Step("s1", ScRef, {KV("ok", Out(ScPlain, None, FALSE))},
+                                     {KV("x", Sig("x", ScRef, None))}, {KV("x", Sig("x", ScRefD, Some(Dn)))}, None))})}
+Universe == ScopeUniverse \cup SchemaUniverse \cup LifeBases
+LifeCycle(s) == Tier = "thorough" \/ s \in LifeBases
+
+(* ------------------------------------------------------------------------ *)
+(* life cycle of a built schema (C09): Build -> Describe -> change it in     *)
+(* place through a PUBLIC builder -> Describe again -> Rebuild.  The         *)
+(* builders the SDK exports on a built schema: PropertySchema.Disable        *)
+(* (reason) and PropertySchema.TreatEmptyAsDefaultValue() (Go-side only:     *)
+(* the description does not change).  Every description state - before and   *)
+(* after a builder call - is held to the same properties.                    *)
+(* ------------------------------------------------------------------------ *)
+Bld(op, sc, obj, prop) == [op |-> op, scope |-> sc, obj |-> obj, prop |-> prop, reason |-> "why"]
+ScopeBuilders(name, sc) ==
+    UNION {{Bld("disable", name, x.key, p.name) : p \in {q \in x.obj.props : ~q.disabled}} : x \in sc.objects}
+    \cup {Bld("treat_empty", name, x.key, p.name) :
+             x \in {y \in sc.objects : y.key = sc.root}, p \in {q \in Lookup(sc.objects, sc.root).props : ~q.empty_is_default}}
+BuildProp(p, b) == IF b.op = "disable" THEN [p EXCEPT !.disabled = TRUE, !.disabled_reason = Some(b.reason)]
+                   ELSE [p EXCEPT !.empty_is_default = TRUE]
+BuildScope(sc, b) ==
+    [sc EXCEPT !.objects = {IF x.key = b.obj
+                            THEN KO(x.key, [x.obj EXCEPT !.props = {IF p.name = b.prop THEN BuildProp(p, b) ELSE p : p \in @}])
+                            ELSE x : x \in @}]
+InName(k)      == "steps." \o k \o ".input"
+OutName(k, o)  == "steps." \o k \o ".outputs." \o o
+HName(k, g)    == "steps." \o k \o ".signal_handlers." \o g
+EName(k, g)    == "steps." \o k \o ".signal_emitters." \o g
+Builders(s) ==
+    IF s.kind # "schema" THEN ScopeBuilders("scope", s)
+    ELSE UNION {ScopeBuilders(InName(x.key), x.x.input)
+                \cup UNION {ScopeBuilders(OutName(x.key, o.key), o.x.schema) : o \in x.x.outputs}
+                \cup UNION {ScopeBuilders(HName(x.key, g.key), g.x.data) : g \in x.x.handlers}
+                \cup UNION {ScopeBuilders(EName(x.key, g.key), g.x.data) : g \in x.x.emitters} : x \in s.steps}
+BuildStep(k, stp, b) ==
+    [stp EXCEPT !.input = IF b.scope = InName(k) THEN BuildScope(@, b) ELSE @,
+               !.outputs = {KV(o.key, [o.x EXCEPT !.schema = IF b.scope = OutName(k, o.key) THEN BuildScope(@, b) ELSE @]) : o \in @},
+               !.handlers = {KV(g.key, [g.x EXCEPT !.data = IF b.scope = HName(k, g.key) THEN BuildScope(@, b) ELSE @]) : g \in @},
+               !.emitters = {KV(g.key, [g.x EXCEPT !.data = IF b.scope = EName(k, g.key) THEN BuildScope(@, b) ELSE @]) : g \in @}]
+ApplyBuilder(s, b) ==
+    IF s.kind # "schema" THEN BuildScope(s, b)
+    ELSE TSchema({KV(x.key, BuildStep(x.key, x.x, b)) : x \in s.steps})
 
 (* ------------------------------------------------------------------------ *)
 (* minimal form: every field the meta-schema declares optional is omitted    *)
@@ -322,11 +366,24 @@ BaseInline == TScope("A", {KO("A", TObject("A",
                    P("m", TMap(TStr0, InlineObj("I3", TBool, "true"), None, None, FALSE)),
                    P("u", TOneOf("string", "t", FALSE, {Mem(S("x"), InlineObj("I4", TInt0, "5"))}))},
                   FALSE, "map"))})
+\* a reference at every kind of position that can hold one - directly on an object: property, list item, map
+\* value, one-of (string keys) member, one-of (INTEGER keys) member, property of an inline object; and below
+\* containers - in the input of a plugin schema, which stands alone (a foreign namespace cannot be supplied)
+RefsObj == TObject("A", {P("d", RefB),
+                         P("l", TList(RefB, None, None, FALSE)),
+                         P("m", TMap(TStr0, RefB, None, None, FALSE)),
+                         P("s", TOneOf("string", "t", FALSE, {Mem(S("x"), RefB)})),
+                         P("i", TOneOf("int", "t", FALSE, {Mem(N(1), RefB)})),
+                         P("o", TObject("I1", {P("r", RefB),
+                                               P("c", TList(TOneOf("int", "t", FALSE, {Mem(N(1), RefB)}), None, None, FALSE)),
+                                               P("v", TMap(TStr0, TOneOf("string", "t", FALSE, {Mem(S("x"), RefB)}), None, None, FALSE))},
+                                        FALSE, "map"))}, FALSE, "map")
+BaseRefs == TSchema({KV("s1", Step("s1", TScope("A", {KO("A", RefsObj), KO("B", ObjB({}, FALSE))}), {}, {}, {}, None))})
 \* bases that are exercised as they are (quick tier: not mutated)
 PlainBases == IF Tier = "quick" THEN Chains \cup {ChainSchema} ELSE {}
-Bases == IF Tier = "quick" THEN {BaseRich, BaseOne, BaseSmall, BaseSchema, BaseUnits, BaseInline}
+Bases == IF Tier = "quick" THEN {BaseRich, BaseOne, BaseSmall, BaseSchema, BaseUnits, BaseInline, BaseRefs}
          ELSE IF MaxMut = 1 THEN {BaseRich, BaseOne, BaseOneI, BaseEnum, BaseEnumI, BaseInner, BaseSmall, BaseTiny,
-                                  BaseFloat, BaseSchema, BaseSchemaS, BaseUnits, BaseInline, ChainSchema} \cup Chains
+                                  BaseFloat, BaseSchema, BaseSchemaS, BaseUnits, BaseInline, BaseRefs, ChainSchema} \cup Chains
          ELSE {BaseSmall, BaseTiny, BaseSchemaS}
 
 \* grammar-free trees: atoms, and one or two levels of containers under the keys the entry points look for
@@ -354,7 +411,7 @@ Init ==
              \/ src = NoSrc /\ n = 0 /\ tgt \in {"scope", "schema"} /\ d \in GFTrees
 
 Pick ==
-    /\ st = "desc" /\ n < MaxMut /\ pp = NoPick
+    /\ Mode = "c10" /\ st = "desc" /\ n < MaxMut /\ pp = NoPick
     /\ pp' \in {<<>>} \cup Paths(d)
     /\ UNCHANGED <<src, tgt, d, st, n, lab>>
 Mutate ==
@@ -377,7 +434,16 @@ Use ==
     /\ st = "linked"
     /\ st' = IF UseCauseTop(Rebuild(tgt, d)) = "ok" THEN "returned" ELSE "rejected"
     /\ UNCHANGED <<src, tgt, d, n, lab, pp>>
-Next == Pick \/ Mutate \/ Accept \/ Link \/ Use
+\* C09: a public builder changes the built schema in place; it is described again
+Builder ==
+    /\ Mode = "c09" /\ st = "desc" /\ n < MaxMut /\ LifeCycle(src)
+    /\ \E b \in Builders(src) :
+          /\ src' = ApplyBuilder(src, b)
+          /\ lab' = Append(lab, b)
+    /\ d' = Describe(src')
+    /\ n' = n + 1
+    /\ UNCHANGED <<tgt, st, pp>>
+Next == Pick \/ Mutate \/ Builder \/ Accept \/ Link \/ Use
 Spec == Init /\ [][Next]_vars
 View == <<src, tgt, d, st, pp>>
 
@@ -440,7 +506,7 @@ Export ==
       [] pp # NoPick -> Emit([mode |-> "pick"])
       [] st = "desc" /\ Mode = "c09" ->
             Emit([mode |-> "c09", target |-> tgt, ast |-> src, desc |-> J(d), minimal |-> J(MinimalTop(tgt, d)),
-                  usable |-> Usable(src), utoks |-> UnitTokens])
+                  usable |-> Usable(src), utoks |-> UnitTokens, builders |-> lab])
       [] st = "desc" /\ Mode = "c10" ->
             LET c == Classify(tgt, d) IN
             Emit([mode |-> "c10", target |-> tgt, desc |-> J(d), labels |-> lab, grammar_free |-> (src = NoSrc),
